@@ -93,24 +93,13 @@ func genC18(seed int64, tier string) *Scenario {
 		if r.Intn(6) == 0 {
 			fn = "dofile"
 			lit = mod + ".lua"
-			if i := strings.LastIndex(mod, "/"); i > 0 && r.Intn(3) == 0 {
-				// no suffix, and the string names a directory (the directory part of a module path) while
-				// no Lua file or package anywhere goes by that name: nothing the string could mean
-				dir := mod[:i]
-				base := dir[strings.LastIndex(dir, "/")+1:]
-				clash := false
-				for p := range exists {
-					if strings.HasSuffix(p, "/"+base+".lua") || p == base+".lua" || strings.HasSuffix(p, "/"+base+"/init.lua") || p == base+"/init.lua" || strings.HasSuffix(p, "/"+base+".so") || p == base+".so" {
-						clash = true
-					}
-				}
-				for _, nm := range names {
-					if nm == base {
-						clash = true // a later event may create a module of that name
-					}
-				}
-				if !clash {
-					lit = dir
+			if r.Intn(3) == 0 {
+				// no suffix: the string names no file by itself; the analysis matches it loosely (m ->
+				// some m.lua), and often it names a directory (a package directory, the directory part
+				// of a module path)
+				lit = mod
+				if i := strings.LastIndex(mod, "/"); i > 0 && r.Intn(2) == 0 {
+					lit = mod[:i]
 				}
 			}
 		}
@@ -277,6 +266,10 @@ func c18Candidates(disk []File, ref c18Ref, sep string) (cands map[string]bool, 
 	if ref.Func == "dofile" {
 		for _, f := range disk {
 			if f.Path == mod || strings.HasSuffix(f.Path, "/"+mod) {
+				cands[f.Path] = true
+			}
+			// written without the suffix: name.lua
+			if !strings.HasSuffix(mod, ".lua") && (f.Path == mod+".lua" || strings.HasSuffix(f.Path, "/"+mod+".lua")) {
 				cands[f.Path] = true
 			}
 		}
